@@ -7,8 +7,10 @@
 (* Named restriction of the table, not of the instruction set:                                                     *)
 (*   CallpInPageFF   the form language of IsaCommon has no "fixed page" operand; CALLP is written with the        *)
 (*                   in-page field FPage(8, 0), which is the instruction's meaning exactly when the instruction    *)
-(*                   itself lies in page FF (page of its own address = FF).  Elsewhere the form is not legal, so   *)
-(*                   CALLP is only generated in images loaded into page FF.                                       *)
+(*                   itself lies in page FF (page of its own address = FF).  Elsewhere the form does not describe  *)
+(*                   the instruction: PlaceOK(form, pc) states where a form of this table may be used, generators  *)
+(*                   (DasmSole_Gen) only keep images that respect it, so CALLP only occurs in images loaded into   *)
+(*                   page FF.                                                                                     *)
 (* Not in the table: CALLV n (1100nnnn): the target is read from the vector cell FFC0 + 2n, i.e. it is a function   *)
 (* of the image contents, not of the instruction; JP gg / JP (mem) / CALL gg / CALL (mem): no target operand        *)
 (* (DASL marks them "indirect jump, investigate here").                                                            *)
@@ -16,6 +18,7 @@
 EXTENDS Isa87Flow
 
 CallpInPageFF == TRUE
+PlaceOK(f, pc) == (CallpInPageFF /\ f.id = "CALLP") => pc \div 256 = 255
 FormsX ==
   Forms \cup
   { [id |-> "RETN", mn |-> "RETN", cpus |-> All, args |-> <<>>, flds |-> <<>>, enc |-> <<U(232, <<>>), U(4, <<>>)>>,
